@@ -118,9 +118,19 @@ def eval_expression(expr: str, context: dict) -> Any:
     # We search for all variable names starting with $, remove the $ and add
     # the value in the dict for eval
     expr_locals = {}
+    # (the text of a string literal is not touched: "pay in $USD" stays as it is)
     regex_pattern = r"\$([a-zA-Z_][a-zA-Z0-9_]*)"
-    var_names = re.findall(regex_pattern, expr)
-    updated_expr = re.sub(regex_pattern, r"var_\1", expr)
+    var_names = []
+
+    def _replace_variable(match):
+        var_name = match.group(5)
+        if var_name is None:
+            # A string literal
+            return match.group(0)
+        var_names.append(var_name)
+        return f"var_{var_name}"
+
+    updated_expr = re.sub(f"{string_pattern}|{regex_pattern}", _replace_variable, expr)
 
     for var_name in var_names:
         # if we've already computed the value, we skip
